@@ -91,6 +91,10 @@ def run(ctx) -> None:
     check_resettable(ctx)
     ctx.rule("C03.bounded", "T2: under its bound arguments an undo entry writes only cells the operation writes", floor=10)
     check_bounded(ctx, regs)
+    from . import replayform
+
+    ctx.rule("C03.replay", "bounded evaluation: every reversible operation (alone, in ordered pairs, nested, ended by an exception) run inside a context on a stand-in model by the real methods; leaving the block gives back the whole object graph and the solver problem", floor=1)
+    ctx.guard(replayform.check_replay, ctx, "C03.replay", "restore")
     # undo entries are ordinary calls of the public editing methods: one that silently skips part of its argument
     # (a group that refuses a member without a model pointer) leaves the block with the change in place (shared with C02)
     from . import genesform
